@@ -32,6 +32,9 @@ type Program struct {
 	// ModPrefix is the import-path prefix of "own" packages.
 	ModPrefix string
 	Overlay   map[string][]byte
+	scc       map[*ssa.Function]int
+	sccSize   map[int]int
+	selfRec   map[*ssa.Function]bool
 }
 
 // Load type-checks patterns in dir with -tags verif and builds SSA.
@@ -225,4 +228,164 @@ func (p *Program) Closure(roots []string, skip func(key string) bool) []string {
 	}
 	sort.Strings(order)
 	return order
+}
+
+// callees lists the module functions fn may call: static callees, closures it creates, and the
+// module's implementations of invoked interface methods (class-hierarchy style).
+func (p *Program) callees(fn *ssa.Function, concrete []types.Type) []*ssa.Function {
+	var out []*ssa.Function
+	own := func(f *ssa.Function) bool {
+		if f == nil || len(f.Blocks) == 0 {
+			return false
+		}
+		pk := f.Pkg
+		if pk == nil && f.Parent() != nil {
+			pk = f.Parent().Pkg
+		}
+		return pk != nil && strings.HasPrefix(pk.Pkg.Path(), p.ModPrefix)
+	}
+	for _, b := range fn.Blocks {
+		for _, in := range b.Instrs {
+			var c *ssa.CallCommon
+			switch x := in.(type) {
+			case *ssa.Call:
+				c = x.Common()
+			case *ssa.Go:
+				c = x.Common()
+			case *ssa.Defer:
+				c = x.Common()
+			case *ssa.MakeClosure:
+				if f := x.Fn.(*ssa.Function); own(f) {
+					out = append(out, f)
+				}
+			}
+			if c == nil {
+				continue
+			}
+			if c.IsInvoke() {
+				if it, ok := c.Value.Type().Underlying().(*types.Interface); ok {
+					for _, t := range concrete {
+						if types.Implements(t, it) {
+							if m := p.Prog.LookupMethod(t, c.Method.Pkg(), c.Method.Name()); own(m) {
+								out = append(out, m)
+							}
+						}
+					}
+				}
+				continue
+			}
+			if f := c.StaticCallee(); own(f) {
+				out = append(out, f)
+			}
+		}
+	}
+	return out
+}
+
+func (p *Program) concreteTypes() []types.Type {
+	var concrete []types.Type
+	for _, pk := range p.OwnPackages() {
+		sc := pk.Types.Scope()
+		for _, name := range sc.Names() {
+			if tn, ok := sc.Lookup(name).(*types.TypeName); ok {
+				if _, isIface := tn.Type().Underlying().(*types.Interface); !isIface {
+					concrete = append(concrete, tn.Type(), types.NewPointer(tn.Type()))
+				}
+			}
+		}
+	}
+	return concrete
+}
+
+// computeSCC runs Tarjan over the module call graph (once).
+func (p *Program) computeSCC() {
+	if p.scc != nil {
+		return
+	}
+	p.scc = map[*ssa.Function]int{}
+	p.sccSize = map[int]int{}
+	p.selfRec = map[*ssa.Function]bool{}
+	concrete := p.concreteTypes()
+	adj := map[*ssa.Function][]*ssa.Function{}
+	for _, fn := range p.All {
+		adj[fn] = p.callees(fn, concrete)
+		for _, c := range adj[fn] {
+			if c == fn {
+				p.selfRec[fn] = true
+			}
+		}
+	}
+	index := 0
+	idx := map[*ssa.Function]int{}
+	low := map[*ssa.Function]int{}
+	on := map[*ssa.Function]bool{}
+	var stack []*ssa.Function
+	ncomp := 0
+	var strong func(v *ssa.Function)
+	strong = func(v *ssa.Function) {
+		index++
+		idx[v], low[v] = index, index
+		stack = append(stack, v)
+		on[v] = true
+		for _, w := range adj[v] {
+			if _, seen := idx[w]; !seen {
+				if _, known := adj[w]; !known {
+					adj[w] = nil
+				}
+				strong(w)
+				if low[w] < low[v] {
+					low[v] = low[w]
+				}
+			} else if on[w] && idx[w] < low[v] {
+				low[v] = idx[w]
+			}
+		}
+		if low[v] == idx[v] {
+			ncomp++
+			for {
+				w := stack[len(stack)-1]
+				stack = stack[:len(stack)-1]
+				on[w] = false
+				p.scc[w] = ncomp
+				p.sccSize[ncomp]++
+				if w == v {
+					break
+				}
+			}
+		}
+	}
+	for _, fn := range p.All {
+		if _, seen := idx[fn]; !seen {
+			strong(fn)
+		}
+	}
+}
+
+// Recursive: fn is on a cycle of the module call graph.
+func (p *Program) Recursive(fn *ssa.Function) bool {
+	p.computeSCC()
+	return p.selfRec[fn] || p.sccSize[p.scc[fn]] > 1
+}
+
+// SameSCC: a call from a to b may be part of a recursion.
+func (p *Program) SameSCC(a, b *ssa.Function) bool {
+	p.computeSCC()
+	if a == b {
+		return true
+	}
+	ia, oka := p.scc[a]
+	ib, okb := p.scc[b]
+	return oka && okb && ia == ib && p.sccSize[ia] > 1
+}
+
+// RecursiveFuncs lists every function on a call-graph cycle.
+func (p *Program) RecursiveFuncs() []*ssa.Function {
+	p.computeSCC()
+	var out []*ssa.Function
+	for _, fn := range p.All {
+		if p.Recursive(fn) {
+			out = append(out, fn)
+		}
+	}
+	return out
 }
